@@ -39,6 +39,7 @@ type Program struct {
 	Lemmas    []LemmaDecl
 	Guarded   map[string]string // "pkg.T.f" or "global:pkg.v" -> mutex field / variable
 	Immutable map[string]bool   // same keys
+	Opaque    map[string]bool   // short function names (as printed by shortFn) never executed in place
 	SpecFiles []*SpecFile
 	HookFiles []string // comment-only verif-tagged files found in /repo
 	Trusted   []string // scan results: trusted/permissive contracts, axioms, abstract functions
@@ -205,6 +206,12 @@ func (p *Program) register() error {
 			if c.Mode == "trusted" {
 				p.Trusted = append(p.Trusted, "trusted contract (assumed, not verified): "+shortFn(c.Key()))
 			}
+		}
+		for _, o := range sf.Opaque {
+			if p.Opaque == nil {
+				p.Opaque = map[string]bool{}
+			}
+			p.Opaque[o] = true
 		}
 		for _, g := range sf.Guards {
 			pk := p.resolvePkg(g.Pkg)
